@@ -3,12 +3,13 @@
 From Coq Require Import List NArith ZArith Bool FMapPositive.
 From Coq Require Extraction ExtrOcamlBasic.
 Require Import FlexV.Regex FlexV.SpecAuto FlexV.Lockstep FlexV.Pat FlexV.Tables FlexV.Scan
-               FlexV.C01Proofs FlexV.Tokenize.
+               FlexV.C01Proofs FlexV.Tokenize FlexV.GenOptions.
 Extraction Language OCaml.
 Extraction "flexv.ml"
   matchb denote rule_re spec_start sstep seqb sobs sdead
   arr_of_list aget cview fview sview frow_ok ikey ist_eqb
   ok check_view alphabet lk scan spec_scan
   validate spec_tokens view_tokens bol_after
+  GenOptions.model GenOptions.all_optsets
   PositiveMap.empty PositiveMap.add PositiveMap.find PositiveMap.elements
   N.of_nat N.to_nat Z.of_nat Z.of_N Z.to_N.
